@@ -196,6 +196,7 @@ type rleFrameCase struct {
 	Rows, Cols, BA, SPP, Planar int
 	Hex                         string `json:"hex,omitempty"`
 	Frame                       []byte `json:"-"`
+	Multi                       bool   // also encode [frame, reversed frame, frame] as one 3-frame PixelData and decode every frame
 }
 
 func (a *rleFrameCase) frame() []byte {
@@ -264,6 +265,47 @@ func rleFrameRun(a rleFrameCase, c *eng.Ctx, obsOut map[string]int) *eng.Fail {
 	}
 	if !bytes.Equal(out, want) {
 		return eng.Failf("roundtrip-mismatch", "decoded differs at byte %d (len %d want %d)", firstDiff(out, want), len(out), len(want))
+	}
+	if a.Multi {
+		rev := make([]byte, len(src))
+		for i := range src {
+			rev[i] = src[len(src)-1-i] ^ 0x5A
+		}
+		frames := [][]byte{src, rev, src}
+		min := codec.NewTestPixelData(info)
+		for _, f := range frames {
+			min.AddFrame(append([]byte(nil), f...))
+		}
+		menc := codec.NewTestPixelData(info)
+		if err := cd.Encode(min, menc, nil); err != nil {
+			return eng.Failf("encode-error-multiframe", "%v", err)
+		}
+		if menc.FrameCount() != 3 {
+			return eng.Failf("frame-count", "3-frame encode produced %d frames", menc.FrameCount())
+		}
+		// keep private copies of the encoded frames as they are now, then decode
+		var kept [][]byte
+		for i := 0; i < 3; i++ {
+			f, _ := menc.GetFrame(i)
+			kept = append(kept, append([]byte(nil), f...))
+		}
+		if !bytes.Equal(kept[0], stream) || !bytes.Equal(kept[2], stream) {
+			return eng.Failf("multiframe-encoding-differs", "frame 0 or 2 of [f, g, f] is not encoded to the bytes f alone is encoded to")
+		}
+		mdec := codec.NewTestPixelData(info)
+		if err := cd.Decode(menc, mdec, nil); err != nil {
+			return eng.Failf("decode-error-multiframe", "%v", err)
+		}
+		for i, f := range frames {
+			o, _ := mdec.GetFrame(i)
+			w := f
+			if len(f)%2 == 1 {
+				w = append(append([]byte(nil), f...), 0)
+			}
+			if !bytes.Equal(o, w) {
+				return eng.Failf("roundtrip-mismatch-multiframe", "frame %d of 3 differs at byte %d", i, firstDiff(o, w))
+			}
+		}
 	}
 	if c != nil {
 		c.Distinct(eng.Hash(stream), len(stream) > 64+2*ba*a.SPP)
@@ -415,7 +457,7 @@ func c01Frames(c *eng.Ctx) {
 			if n%2 == 0 && si%2 == 0 {
 				rows, cols = 2, n/2
 			}
-			a := rleFrameCase{Rows: rows, Cols: cols, BA: lay.ba, SPP: lay.spp, Planar: lay.planar, Frame: fr}
+			a := rleFrameCase{Rows: rows, Cols: cols, BA: lay.ba, SPP: lay.spp, Planar: lay.planar, Frame: fr, Multi: true}
 			c.Eval(1)
 			if f := eng.Guard(func() *eng.Fail { return rleFrameRun(a, c, nil) }); f != nil {
 				a.Hex = hx(fr)
@@ -426,7 +468,7 @@ func c01Frames(c *eng.Ctx) {
 	if !done {
 		c.Capped("macro content sub-space cut by deadline")
 	}
-	c.Subspace("rle-frames-macro", c.Evals()-before, done, fmt.Sprintf("every sequence of <= %d macro-ops {run(L), literal(L)} with L in %v, mapped into plane layouts (BA x SPP x planar)", kmax, lens))
+	c.Subspace("rle-frames-macro", c.Evals()-before, done, fmt.Sprintf("every sequence of <= %d macro-ops {run(L), literal(L)} with L in %v, mapped into plane layouts (BA x SPP x planar); each also as frames 0 and 2 of a 3-frame PixelData", kmax, lens))
 
 	if c.Thorough() {
 		before = c.Evals()
